@@ -472,6 +472,13 @@ def Diff.node (d : Diff) : XNode :=
                         ++ (d.new.filter (fun r => !old.contains r)).map (routeFilter · false))),
              .elem b!"then" [] [.empty b!"accept" []]]))
 
+/-- load.rs: a family with nothing installed and nothing to install writes nothing at all
+(since the `fix:` commit; the pinned snapshot wrote an empty `<term>`) -/
+def Diff.skip (d : Diff) : Bool :=
+  d.new.isEmpty && (match d.old with | none => true | some old => old.isEmpty)
+
+def Diff.nodes (d : Diff) : List XNode := if d.skip then [] else [d.node]
+
 inductive Update
   | delete (name : List Nat)
   | update (name : List Nat) (now : List Nat) (expr : List Nat) (v4 v6 : Diff)
@@ -486,6 +493,6 @@ def updateTree : Update → XNode
     .elem b!"configuration" [] [.elem b!"policy-options" []
       [.elem b!"policy-statement"
         [⟨b!"junos:comment", b!"Last updated at " ++ now ++ b!" from mp-filter expression " ++ expr⟩]
-        [.text b!"name" [] name, v4.node, v6.node, .elem b!"then" [] [.empty b!"reject" []]]]]
+        ([.text b!"name" [] name] ++ v4.nodes ++ v6.nodes ++ [.elem b!"then" [] [.empty b!"reject" []]])]]
 
 end Writers
